@@ -21,6 +21,24 @@ oracle: oracle.render - expected tag sequence computed from the generator's grou
         misplaced blocks; oracle.witnesses - a fixed corpus replayed on every run: the witnesses of the recorded
         findings and the regression cases of the repaired ones (F-C06-3, F-C06-4) and of two rule points
         (`local` in an intermediate template, None/falsy module attributes).
+Always-run witnesses (`oracle_fixed_witnesses`, `oracle_witnesses`; streams oracle.witnesses / corr.witnesses) - every
+assertion kind of the oracle has a fixed input, so the catch of a change never depends on the seed:
+  compile-time rules (`_check_witnesses`, 46 trees): a named block directly in a def / <%call> / <%ns:def>, and there
+    inside 1 and 2 anonymous blocks (same line and other lines), under a control line (with and without an anonymous
+    block), in a nested def, in a nested call; only anonymous blocks in a def/call (accepted); named block in a def
+    replaced by a later def (directly, under an anonymous block, in a nested def); duplicate block names at body
+    level, nested in its namesake, in an anonymous block, in two different blocks, under a control line, 3 levels
+    deep; def and block of one name (both orders); two anonymous blocks on one line (side by side, nested: F-C06-2);
+    accepted controls (distinct nested blocks, block under a control line, two defs of one name);
+  run-time rules (`_render_witnesses`, 22 cases + `WITNESSES`, 8 cases): self/parent/next/local dispatch from an
+    intermediate template; nearest definition toward the base; missing member; next at T0; parent at the base;
+    base-most position / most-derived content / skipped level; nested blocks with an overridden container;
+    anonymous blocks in place; buffered blocks and overrides; most-derived module attribute incl. None/falsy values
+    and missing ones; self.attr read by the inherit expression of a middle template; inherit evaluating to None
+    in an inherited-from template; missing inherit target; body() arguments and their errors; def parameters and
+    their errors; call with content in place; included templates (own blocks, parent absent, chain order, include
+    from def and block, missing target); compile error inside a chain; members named like Namespace attributes
+    (F-C06-1); `local` in an intermediate template.
 A violating case is shrunk and attributed to a recorded finding only by a causal test (`classify`): removing exactly
 that feature must make the implementation follow the rules again; anything else is reported under the sites
 `inheritance-dispatch` / `block-checks`, which no recorded finding matches.
@@ -144,6 +162,10 @@ def emit_nodes(nodes, w, sig, where):
             w.w(call_src(n))
         elif k == "a":
             w.w("{v${%s.attr.%s}}" % (REFNAME[n["r"]], n["x"]))
+        elif k == "ctl":        # `% if True:` ... `% endif`: control lines are flat nodes, the kids are siblings
+            w.w("\n% if True:\n")
+            emit_nodes(n["kids"], w, sig, where)
+            w.w("\n% endif\n")
         elif k == "i":
             w.w('<%%include file="%s"/>' % target_of(0, getattr(w, "fb", False), "k%d" % n["t"]))
         elif k == "g":
@@ -253,9 +275,16 @@ def enc_sig(sig):
 
 def enc_nodes(nodes, out):
     out.append("[")
+    enc_node_seq(nodes, out)
+    out.append("]")
+
+
+def enc_node_seq(nodes, out):
     for n in nodes:
         k = n["k"]
-        if k == "t":
+        if k == "ctl":
+            enc_node_seq(n["kids"], out)
+        elif k == "t":
             out += ["t", str(n["v"])]
         elif k == "c":
             out += ["c", n["r"], enc(n["x"]), enc_vals(n.get("pos", [])), enc_kws(n.get("kw", []))]
@@ -274,7 +303,6 @@ def enc_nodes(nodes, out):
         elif k == "x":
             out.append("x")
             enc_nodes(n["kids"], out)
-    out.append("]")
 
 
 def buffered_blocks(nodes, names, lines):
@@ -499,6 +527,8 @@ def block_defs(nodes, acc):
             if n["n"] is not None:
                 acc.append(n)
             block_defs(n["kids"], acc)
+        elif n["k"] == "ctl":
+            block_defs(n["kids"], acc)
     return acc
 
 
@@ -511,6 +541,8 @@ def all_named_blocks(nodes, under, acc):
             all_named_blocks(n["kids"], under, acc)
         elif n["k"] in ("d", "x"):
             all_named_blocks(n["kids"], True, acc)
+        elif n["k"] == "ctl":
+            all_named_blocks(n["kids"], under, acc)
     return acc
 
 
@@ -523,7 +555,9 @@ def rules_compile_fault(nodes):
         return "dup"
     if any(u for _, u in blocks):
         return "misplaced"
-    tops = [n["n"] for n in nodes if n["k"] == "d"]
+    def top_defs(ns):
+        return [n["n"] for n in ns if n["k"] == "d"] + [x for n in ns if n["k"] == "ctl" for x in top_defs(n["kids"])]
+    tops = top_defs(nodes)
     if set(tops) & set(names):
         return "dup"
     return None
@@ -608,6 +642,8 @@ class Rules:
                 out.append(("g", bound, tuple(extra or ())))
             elif k == "d":
                 pass
+            elif k == "ctl":
+                out += self.run(i, n["kids"], bound, extra, depth + 1)
             elif k == "i":          # <%include>: the target's chain, base-most body first, no arguments, in place
                 if not (1 <= n["t"] <= len(self.lib)):
                     raise OErr("lookup")
@@ -1552,7 +1588,7 @@ def check_differs(t):
     return (rules_compile_fault(t) is None) != (impl_compile(t) == "ok")
 
 
-def report_check_violation(ctx, t):
+def report_check_violation(ctx, t, stream="oracle.check", label=None):
     case = {"levels": [{"inh": "N", "sig": [], "attrs": [], "nodes": t}], "data": []}
 
     def differs(c):
@@ -1570,7 +1606,7 @@ def report_check_violation(ctx, t):
     ctx.violation(site, {"input": tree_source(nodes), "tree": nodes, "expected": rules_compile_fault(nodes) or "ok",
                          "got": impl_compile(nodes)},
                   "rules of the property give %r, mako gives %r" % (rules_compile_fault(nodes) or "ok", impl_compile(nodes)),
-                  "oracle.check")
+                  stream)
 
 
 # fixed witnesses of the recorded findings (replayed on the implementation on every run) and of the rules
@@ -1611,6 +1647,200 @@ WITNESSES = [
         {"k": "d", "n": "ma", "kids": [{"k": "t", "v": 2}]}]}],
      "data": []},
 ]
+
+
+# ---- always-run witnesses (the catch of a change must not depend on the seed) ---------------------------------
+
+def _t(v):
+    return {"k": "t", "v": v}
+
+
+def _nb(name, kids=None, nl=False, buf=False):
+    n = {"k": "b", "n": name, "kids": kids if kids is not None else [_t(900)]}
+    if nl:
+        n["nl"] = True
+    if buf:
+        n["buf"] = True
+    return n
+
+
+def _ab(kids, nl=False, buf=False):
+    return _nb(None, kids, nl, buf)
+
+
+def _d(name, kids, sig=None):
+    return {"k": "d", "n": name, "sig": sig or [], "kids": kids}
+
+
+def _x(kids, form=0):
+    return {"k": "x", "kids": kids, "form": form}
+
+
+def _ctl(kids):
+    return {"k": "ctl", "kids": kids}
+
+
+def _c(r, x, pos=None, kw=None):
+    return {"k": "c", "r": r, "x": x, "pos": pos or [], "kw": kw or []}
+
+
+def _lv(nodes, inh="N", sig=None, attrs=None, form=0):
+    return {"inh": inh, "form": form, "sig": sig or [], "attrs": attrs or [], "nodes": nodes}
+
+
+def _check_witnesses():
+    """(label, tree, verdict the property text demands) - compile-time rules"""
+    ws = []
+    holders = [("def", lambda k: _d("zd", k)), ("call", lambda k: _x(k, 0)), ("nsdef", lambda k: _x(k, 1))]
+    for hn, h in holders:
+        b = lambda: _nb("mb", nl=True)
+        ws += [
+            ("named block directly in " + hn, [h([_t(1), _nb("mb")])], "compile"),
+            ("... in 1 anonymous block, other line, in " + hn, [h([_ab([b()], nl=True)])], "compile"),
+            ("... in 1 anonymous block, same line, in " + hn, [h([_ab([_nb("mb")])])], "compile"),
+            ("... in 2 anonymous blocks, other lines, in " + hn, [h([_ab([_ab([b()], nl=True)], nl=True)])], "compile"),
+            ("... in 2 anonymous blocks, same line, in " + hn, [h([_ab([_ab([_nb("mb")])])])], "compile"),
+            ("... under a control line in " + hn, [h([_ctl([_nb("mb")])])], "compile"),
+            ("... under a control line and an anonymous block in " + hn, [h([_ctl([_ab([b()], nl=True)])])], "compile"),
+            ("... in a def nested in " + hn, [h([_d("ze", [_nb("mb")])])], "compile"),
+            ("... in a call nested in " + hn, [h([_x([_ab([b()], nl=True)], 0)])], "compile"),
+            ("anonymous blocks only in " + hn, [h([_ab([_t(1), _ab([_t(2)], nl=True)], nl=True)])], "ok"),
+        ]
+    ws += [
+        ("named block in a def replaced by a later def", [_d("zd", [_nb("mb")]), _d("zd", [_t(1)])], "compile"),
+        ("named block under an anonymous block in a replaced def", [_d("zd", [_ab([_nb("mb", nl=True)], nl=True)]), _d("zd", [_t(1)])], "compile"),
+        ("named block in a def nested in a replaced def", [_d("zd", [_d("ze", [_nb("mb")])]), _d("zd", [_t(1)])], "compile"),
+        ("duplicate block names at body level", [_nb("mb"), _t(1), _nb("mb", nl=True)], "compile"),
+        ("duplicate: block nested in a block of its name", [_nb("mb", [_nb("mb", nl=True)])], "compile"),
+        ("duplicate: one of the two inside an anonymous block", [_nb("mb"), _ab([_nb("mb", nl=True)], nl=True)], "compile"),
+        ("duplicate: inside two different named blocks", [_nb("ma", [_nb("mc", nl=True)]), _nb("mb", [_nb("mc", nl=True)], nl=True)], "compile"),
+        ("duplicate: under a control line", [_nb("mb"), _ctl([_nb("mb")])], "compile"),
+        ("duplicate: 3 levels deep", [_nb("ma", [_nb("mb", [_nb("mc", [_nb("ma", nl=True)], nl=True)], nl=True)])], "compile"),
+        ("def and block of one name", [_d("mb", [_t(1)]), _nb("mb")], "compile"),
+        ("block and later def of one name", [_nb("mb"), _d("mb", [_t(1)])], "compile"),
+        ("two anonymous blocks side by side on one line", [_ab([_t(1)]), _ab([_t(2)])], "ok"),
+        ("anonymous block nested in another on one line", [_ab([_ab([_t(1)])])], "ok"),
+        ("distinct named blocks nested in named and anonymous blocks", [_nb("ma", [_nb("mb", nl=True), _ab([_nb("mc", nl=True)], nl=True)])], "ok"),
+        ("named block under a control line at body level", [_ctl([_nb("mb")])], "ok"),
+        ("two defs of one name without blocks", [_d("zd", [_t(1)]), _d("zd", [_t(2)])], "ok"),
+    ]
+    return ws
+
+
+def _render_witnesses():
+    """(label, case) - run-time rules; the verdict is computed by `Rules` from the property text"""
+    ma = lambda v: _d("ma", [_t(v)])
+    ws = [
+        ("self/parent/next/local dispatch from an intermediate template",
+         {"levels": [_lv([ma(1)], "S"),
+                     _lv([ma(2), _c("s", "ma"), _c("p", "ma"), _c("n", "ma"), _c("l", "ma"), _c("n", "body")], "D"),
+                     _lv([ma(3), _c("n", "body"), _c("l", "ma"), _c("s", "ma")])]}),
+        ("member found further toward the base; AttributeError past the base",
+         {"levels": [_lv([_c("p", "mb"), _c("l", "mb")], "S"), _lv([_c("n", "body")], "S"), _lv([_d("mb", [_t(1)]), _c("n", "body")])]}),
+        ("missing member", {"levels": [_lv([_c("s", "nosuch")])]}),
+        ("next in the most derived template", {"levels": [_lv([_c("n", "body")], "S"), _lv([_c("n", "body")])]}),
+        ("parent in the base-most template", {"levels": [_lv([_t(1)], "S"), _lv([_c("n", "body"), _c("p", "ma")])]}),
+        ("named block: base-most position, most-derived content, skipped level",
+         {"levels": [_lv([_t(1), _nb("mb", [_t(2), _c("p", "mb")]), _t(3)], "S"), _lv([_t(4), _c("n", "body"), _t(5)], "D", form=2),
+                     _lv([_t(6), _nb("mb", [_t(7)]), _c("n", "body"), _t(8)])]}),
+        ("block nested in an overridden block; nested block declared only by the derived template",
+         {"levels": [_lv([_nb("ma", [_t(1), _nb("mc", [_t(2)], nl=True)]), _t(3)], "S"),
+                     _lv([_nb("ma", [_t(4), _nb("mb", [_t(5)], nl=True)]), _c("n", "body")])]}),
+        ("anonymous blocks in place, in body, block and def",
+         {"levels": [_lv([_t(1), _ab([_t(2), _ab([_t(3)], nl=True)], nl=True), _nb("mb", [_ab([_t(4)], nl=True)], nl=True),
+                          _d("ma", [_ab([_t(5)], nl=True)]), _c("s", "ma")])]}),
+        ("most-derived module attribute, attribute only in the base, missing attribute",
+         {"levels": [_lv([{"k": "a", "r": "s", "x": "ax"}, {"k": "a", "r": "p", "x": "ax"}, {"k": "a", "r": "s", "x": "ay"}], "S", attrs=[["ax", 1000]]),
+                     _lv([_c("n", "body"), {"k": "a", "r": "l", "x": "az"}], attrs=[["ax", 2000], ["ay", 2001]])]}),
+        ("self.attr read by the inherit expression of a middle template, attribute of the template attached afterwards",
+         {"levels": [_lv([{"k": "a", "r": "s", "x": "az"}], "D", form=3), _lv([_c("n", "body")], "D", form=4), _lv([_c("n", "body")], attrs=[["az", 3002]])]}),
+        ("inherit expression evaluating to None in a template that is inherited from",
+         {"levels": [_lv([_t(1)], "S"), _lv([_t(2), _c("n", "body")], "Z", form=0)]}),
+        ("inherit target that does not exist", {"levels": [_lv([_t(1)], "S")]}),
+        ("body() arguments reach the target's <%page> signature",
+         {"levels": [_lv([{"k": "g"}], "S", sig=[["pa", None], ["pb", 7]]),
+                     _lv([{"k": "g"}, _c("n", "body", [21], [["pc", 31]]), _c("n", "body", [], [["pb", 32], ["pa", 33]])], sig=[["pa", 5]])],
+          "data": [["pa", 11], ["pz", 12]]}),
+        ("body() argument errors: missing, multiple values",
+         {"levels": [_lv([{"k": "g"}], "S", sig=[["pa", None]]), _lv([_c("n", "body", [1], [["pa", 2]])])]}),
+        ("def parameters: positional, keyword, default; unexpected keyword",
+         {"levels": [_lv([_c("p", "ma", [51]), _c("p", "ma", [], [["pb", 61], ["pa", 62]])], "S"),
+                     _lv([_d("ma", [{"k": "g"}], [["pa", None], ["pb", 1]]), _c("n", "body")])]}),
+        ("def called with a keyword it does not declare",
+         {"levels": [_lv([_d("ma", [_t(1)]), _c("s", "ma", [], [["pc", 1]])])]}),
+        ("call with content runs in place, in the caller's scope",
+         {"levels": [_lv([_d("ma", [_t(1)]), _t(2)], "S"),
+                     _lv([_d("ma", [_t(3), _x([_t(4), _c("p", "ma"), _ab([_t(5)], nl=True)], 0), _x([_t(6)], 1)]), _c("n", "body"), _c("l", "ma")], "S"),
+                     _lv([_d("ma", [_t(7)]), _c("n", "body")])]}),
+        ("included template: its blocks render although the includer's ancestors declare them; parent absent",
+         {"levels": [_lv([_t(1), {"k": "i", "t": 1}, _nb("mb", [_t(2)], nl=True)], "S"), _lv([_nb("mb", [_t(3)]), _nb("ma", [_t(4)], nl=True), _c("n", "body")])],
+          "lib": [{"levels": [_lv([_t(5), _nb("mb", [_t(6)]), _nb("ma", [_t(7)], nl=True)])]}]}),
+        ("included template reads parent", {"levels": [_lv([{"k": "i", "t": 1}], "S"), _lv([_d("ma", [_t(1)]), _c("n", "body")])],
+                                           "lib": [{"levels": [_lv([_c("p", "ma")])]}]}),
+        ("included chain: base-most body first, own self/next; include from a def and a block",
+         {"levels": [_lv([_d("ma", [{"k": "i", "t": 1}]), _nb("mb", [{"k": "i", "t": 2}], nl=True), _c("s", "ma")])],
+          "lib": [{"levels": [_lv([_t(1), _c("s", "mc")], "S"), _lv([_d("mc", [_t(2)]), _t(3), _c("n", "body")])]},
+                  {"levels": [_lv([_t(4)])]}]}),
+        ("include of a template that does not exist", {"levels": [_lv([{"k": "i", "t": 3}])], "lib": [{"levels": [_lv([_t(1)])]}]}),
+        ("compile error of a template of the chain", {"levels": [_lv([_t(1)], "S"), _lv([_d("zd", [_nb("mb")]), _c("n", "body")])]}),
+    ]
+    out = []
+    for label, c in ws:
+        c.setdefault("data", [])
+        out.append((label, c))
+    return out
+
+
+def oracle_fixed_witnesses(ctx, impl):
+    """every assertion kind of the oracle on a fixed input, on every run: model vs mako (corr.witnesses) and
+    property text vs mako (oracle.witnesses)"""
+    drv = ctx.driver()
+    st = ctx.stream("oracle.witnesses", "oracle")
+    sc = ctx.stream("corr.witnesses", exhaustive=True)
+    # compile-time rules
+    cw = _check_witnesses()
+    reqs = []
+    for label, t, want in cw:
+        tree_source(t)
+        out = []
+        enc_nodes(t, out)
+        reqs.append("inh check " + " ".join(out))
+    try:
+        outs = drv.ask_many(reqs)
+    except Exception as e:      # noqa
+        ctx.broke("correspondence:driver", "corr.witnesses: %r" % (e,))
+        outs = [None] * len(cw)
+    for (label, t, want), o in zip(cw, outs):
+        st["cases"] += 1
+        real = impl_compile(t)
+        rules = rules_compile_fault(t)
+        if (rules is None) != (want == "ok"):
+            ctx.broke("witness-verdict", "%s: the harness' rules give %r, the witness says %r" % (label, rules, want))
+        if o is not None:
+            sc["cases"] += 1
+            kinds = set() if o == "ok" else {f.split(":")[0] for f in o.split(" ")}
+            if (real == "ok") != (not kinds) or (real != "ok" and not (real in kinds or (real == "dup" and "incall" in kinds))):
+                ctx.disagree("corr.witnesses", {"input": tree_source(t), "tree": t, "witness": label}, o, real)
+        if (real == "ok") != (want == "ok"):
+            report_check_violation(ctx, copy.deepcopy(t), "oracle.witnesses", label)
+    # run-time rules
+    rw = _render_witnesses()
+    cases = [copy.deepcopy(c) for _, c in rw]
+    try:
+        outs = drv.ask_many([render_req(c) for c in cases])
+    except Exception as e:      # noqa
+        ctx.broke("correspondence:driver", "corr.witnesses: %r" % (e,))
+        outs = [None] * len(cases)
+    for (label, _), c, o in zip(rw, cases, outs):
+        st["cases"] += 1
+        real = impl.render(c)
+        ctx.branch("witness:" + (real[1] if real[0] == "exc" else "ok"))
+        if o is not None:
+            sc["cases"] += 1
+            if parse_model_render(o) != real:
+                ctx.disagree("corr.witnesses", dict(public(c), witness=label), parse_model_render(o), real)
+        if oracle_render(c) != real:
+            report_violation(ctx, impl, c, "oracle.witnesses")
 
 
 def oracle_witnesses(ctx, impl):
@@ -1668,6 +1898,7 @@ def run(ctx):
         guarded("build+attrs", lambda: corr_build_attrs(ctx, impl, gen, 300 if ctx.quick else 5000))
         guarded("check", lambda: corr_and_oracle_check(ctx, gen, 2500 if ctx.quick else 40000))
         guarded("witnesses", lambda: oracle_witnesses(ctx, impl))
+        guarded("fixed-witnesses", lambda: oracle_fixed_witnesses(ctx, impl))
         if cases:
             c = cases[0]
             ctx.sample({"stream": "corr.render", "sources": sources(c), "data": c["data"], "mako": impl.render(c)})
